@@ -10,7 +10,8 @@ def main():
     ap.add_argument('--tier', default=os.environ.get('VERIF_TIER', 'quick'), choices=['quick', 'thorough'])
     ap.add_argument('--replay')
     a = ap.parse_args()
-    from vf.common import Inconclusive
+    from vf.common import Inconclusive, _install_reaper
+    _install_reaper()          # main thread: SIGTERM / exit also ends solver and cargo-kani process groups started by the check
     rc = [2]
 
     def body():
